@@ -112,6 +112,8 @@ pub struct Stats {
     pub excluded: BTreeMap<String, u64>,
     pub samples: Vec<Value>,
     pub nontrivial_samples: Vec<Value>,
+    /// harness trouble observed while checking a case (watchdog expiry, spawn failure): exit 2, never a violation
+    pub inconclusive: Vec<String>,
     frozen: bool,
 }
 
@@ -151,8 +153,18 @@ impl Stats {
             }
         }
     }
+    pub fn trouble(&mut self, msg: impl Into<String>) {
+        if self.inconclusive.len() < 8 {
+            self.inconclusive.push(msg.into());
+        }
+    }
     pub fn merge(&mut self, o: Stats) {
         self.evaluations += o.evaluations;
+        for m in o.inconclusive {
+            if self.inconclusive.len() < 8 {
+                self.inconclusive.push(m);
+            }
+        }
         self.nontrivial.extend(o.nontrivial);
         for (k, v) in o.classes {
             *self.classes.entry(k).or_insert(0) += v;
@@ -400,6 +412,9 @@ pub fn search<C: Case>(
     let mut stage_evals = 0;
     for (st, fail, abort) in results {
         stage_evals += st.evaluations;
+        for m in &st.inconclusive {
+            out.inconclusive.push(format!("{}: {}", stage, m));
+        }
         out.stats.merge(st);
         if let Some(a) = abort {
             out.inconclusive.push(format!("{}: {}", stage, a));
